@@ -11,6 +11,7 @@ import (
 	"strconv"
 	"strings"
 
+	"github.com/samsarahq/thunder/graphql"
 	"verifharness/pkg/vh"
 )
 
@@ -202,6 +203,7 @@ func main() {
 	}
 
 	const shard = 60
+	shrunk := 0
 	var terms []string
 	start := 0
 	flush := func() {
@@ -220,49 +222,7 @@ func main() {
 			run.Count("", false)
 			continue
 		}
-		var pages []pageResult
-		var fails []oracleFailure
-		finished := true
-		switch c.Kind {
-		case "page":
-			p := runPage(schema, c.Field, c.Items, c.Flag, c.Args)
-			pages = append(pages, p)
-			fails = append(fails, checkPage(c, c.Args, p)...)
-		default:
-			var cur *string
-			finished = false
-			for step := 0; step < len(c.Items)+3; step++ {
-				a := c.Args
-				a.First, a.Last, a.After, a.Before = nil, nil, nil, nil
-				if c.Kind == "walkf" {
-					a.First, a.After = p64(c.K), cur
-				} else {
-					a.Last, a.Before = p64(c.K), cur
-				}
-				p := runPage(schema, c.Field, c.Items, c.Flag, a)
-				pages = append(pages, p)
-				fails = append(fails, checkPage(c, a, p)...)
-				if p.Err != "" {
-					finished = true
-					break
-				}
-				v := viewOf(p.Conn)
-				if !v.ok {
-					finished = true
-					break
-				}
-				more, next := v.hasNext, v.end
-				if c.Kind == "walkb" {
-					more, next = v.hasPrev, v.start
-				}
-				if !more {
-					finished = true
-					break
-				}
-				cur = pstr(next)
-			}
-			fails = append(fails, checkWalk(c, pages, finished)...)
-		}
+		pages, fails := evalCase(schema, c)
 
 		// bookkeeping
 		nonEmpty, errs := 0, 0
@@ -270,9 +230,6 @@ func main() {
 			if p.Err != "" {
 				errs++
 				run.Hist("result:error-" + strings.SplitN(p.Err, ":", 2)[0])
-				if p.Err == "panic" || p.Err == "timeout" || strings.HasPrefix(p.Err, "other") {
-					fails = append(fails, oracleFailure{"execute-" + strings.SplitN(p.Err, ":", 2)[0], p.Err})
-				}
 			} else if es, _ := p.Conn["edges"].([]interface{}); len(es) > 0 {
 				nonEmpty++
 			}
@@ -303,7 +260,21 @@ func main() {
 				continue
 			}
 			seen[f.sig] = true
-			run.Fail(idx, f.sig, f.detail, c)
+			small := c
+			if shrunk < 3 { // minimise the first few failures only: each step re-runs the implementation
+				shrunk++
+				small = shrink(schema, c, f.sig)
+			}
+			detail := f.detail
+			if small != c {
+				_, sf := evalCase(schema, small)
+				for _, g := range sf {
+					if g.sig == f.sig {
+						detail = g.detail + fmt.Sprintf(" [minimised from generated case %d: %d -> %d elements]", idx, len(c.Items), len(small.Items))
+					}
+				}
+			}
+			run.Fail(idx, f.sig, detail, small)
 		}
 		terms = append(terms, fmt.Sprintf("(%d, %s)", idx, coqCase(c, pages)))
 		if len(terms) >= shard {
@@ -313,6 +284,121 @@ func main() {
 	}
 	flush()
 	run.Finish()
+}
+
+// evalCase runs one case against the implementation and evaluates the oracle on its pages.
+func evalCase(schema *graphql.Schema, c *Case) (pages []pageResult, fails []oracleFailure) {
+	finished := true
+	switch c.Kind {
+	case "page":
+		p := runPage(schema, c.Field, c.Items, c.Flag, c.Args)
+		pages = append(pages, p)
+		fails = append(fails, checkPage(c, c.Args, p)...)
+	default:
+		var cur *string
+		finished = false
+		for step := 0; step < len(c.Items)+3; step++ {
+			a := c.Args
+			a.First, a.Last, a.After, a.Before = nil, nil, nil, nil
+			if c.Kind == "walkf" {
+				a.First, a.After = p64(c.K), cur
+			} else {
+				a.Last, a.Before = p64(c.K), cur
+			}
+			p := runPage(schema, c.Field, c.Items, c.Flag, a)
+			pages = append(pages, p)
+			fails = append(fails, checkPage(c, a, p)...)
+			if p.Err != "" {
+				finished = true
+				break
+			}
+			v := viewOf(p.Conn)
+			if !v.ok {
+				finished = true
+				break
+			}
+			more, next := v.hasNext, v.end
+			if c.Kind == "walkb" {
+				more, next = v.hasPrev, v.start
+			}
+			if !more {
+				finished = true
+				break
+			}
+			cur = pstr(next)
+		}
+		fails = append(fails, checkWalk(c, pages, finished)...)
+	}
+	for _, p := range pages {
+		if p.Err == "panic" || p.Err == "timeout" || strings.HasPrefix(p.Err, "other") {
+			fails = append(fails, oracleFailure{"execute-" + strings.SplitN(p.Err, ":", 2)[0], p.Err})
+		}
+	}
+	return pages, fails
+}
+
+func hasSig(fs []oracleFailure, sig string) bool {
+	for _, f := range fs {
+		if f.sig == sig {
+			return true
+		}
+	}
+	return false
+}
+
+// shrink: delta-debugging on the structured case while the oracle failure with the same signature
+// persists - drop elements, drop optional arguments, make the page size smaller.
+func shrink(schema *graphql.Schema, c *Case, sig string) *Case {
+	cur := *c
+	still := func(t *Case) bool {
+		if wellFormed(t) != "" {
+			return false
+		}
+		_, fs := evalCase(schema, t)
+		return hasSig(fs, sig)
+	}
+	budget := 400
+	for changed := true; changed && budget > 0; {
+		changed = false
+		// drop chunks of elements, then single elements
+		for size := len(cur.Items) / 2; size >= 1 && budget > 0; size /= 2 {
+			for i := 0; i+size <= len(cur.Items) && budget > 0; {
+				t := cur
+				t.Items = append(append([]Item{}, cur.Items[:i]...), cur.Items[i+size:]...)
+				budget--
+				if still(&t) {
+					cur, changed = t, true
+				} else {
+					i += size
+				}
+			}
+		}
+		try := func(f func(t *Case) bool) {
+			t := cur
+			if budget > 0 && f(&t) {
+				budget--
+				if still(&t) {
+					cur, changed = t, true
+				}
+			}
+		}
+		try(func(t *Case) bool { ok := t.Args.FilterText != nil; t.Args.FilterText, t.Args.FilterFields = nil, nil; return ok })
+		try(func(t *Case) bool { ok := t.Args.FilterFields != nil; t.Args.FilterFields = nil; return ok })
+		try(func(t *Case) bool { ok := t.Args.SortBy != nil; t.Args.SortBy, t.Args.SortOrder = nil, nil; return ok })
+		try(func(t *Case) bool { ok := t.Args.SortOrder != nil; t.Args.SortOrder = nil; return ok })
+		try(func(t *Case) bool { ok := t.Args.First != nil; t.Args.First = nil; return ok })
+		try(func(t *Case) bool { ok := t.Args.Last != nil; t.Args.Last = nil; return ok })
+		try(func(t *Case) bool { ok := t.Args.After != nil; t.Args.After = nil; return ok })
+		try(func(t *Case) bool { ok := t.Args.Before != nil; t.Args.Before = nil; return ok })
+		try(func(t *Case) bool { ok := t.Kind != "page" && t.K > 1; t.K = 1; return ok })
+		try(func(t *Case) bool { ok := t.Flag; t.Flag = false; return ok })
+	}
+	if len(cur.Items) == len(c.Items) && cur.Args == c.Args && cur.K == c.K && cur.Flag == c.Flag {
+		return c
+	}
+	cur.Origin = c.Origin + " (minimised)"
+	out := cur
+	return &out
 }
 
 func bucket(n int) string {
